@@ -138,6 +138,7 @@ func body(sp spec) {
 	closeReturned := false
 	var ch3 <-chan *message.Message
 	sub3OK := false
+	var ch0 <-chan *message.Message // subscription made with a context that is already cancelled
 	for _, a := range strings.Split(sp.Actors, "+") {
 		switch a {
 		case "close":
@@ -177,6 +178,14 @@ func body(sp spec) {
 					}()
 				}
 			})
+		case "deadctx":
+			run(func() {
+				ctx0, cancel0 := context.WithCancel(context.Background())
+				cancel0()
+				if c, err := sub.Subscribe(ctx0, "t"); err == nil {
+					ch0 = c // nobody reads it: it is closed because its context has ended
+				}
+			})
 		case "pub":
 			run(func() { g.Publish("t", hx.Msg("m0")) })
 		case "pub2":
@@ -205,6 +214,15 @@ func body(sp spec) {
 			vs.Fail("cancel-leaves-others", "subscription 2 did not receive a message published after subscription 1 was cancelled")
 		}
 	}
+	if ch0 != nil && !closeCalled {
+		vs.Quiesce()
+		if !vs.PeekClosed(ch0) {
+			vs.Fail("cancel-closes-channel", "a subscription made with an already cancelled context still has an open output channel at quiescence")
+		}
+		if closed1 {
+			vs.Fail("cancel-leaves-others", "the subscription with the cancelled context closed subscription 1")
+		}
+	}
 	if err := sub.Close(); err != nil {
 		vs.Fail("close-error", "Close returned %v", err)
 	}
@@ -221,6 +239,9 @@ func body(sp spec) {
 	}
 	if withSub2 && !vs.PeekClosed(ch2) {
 		vs.Fail("channels-closed", "output channel of subscription 2 not closed after Close returned")
+	}
+	if ch0 != nil && !vs.PeekClosed(ch0) {
+		vs.Fail("channels-closed", "output channel of the subscription made with a cancelled context not closed after Close returned")
 	}
 	if sub3OK && !vs.PeekClosed(ch3) {
 		vs.Fail("channels-closed", "output channel of the concurrently created subscription not closed after Close returned")
@@ -261,6 +282,11 @@ func init() {
 		}
 		for _, deco := range []int{0, 1} {
 			for _, cons := range []string{"ack", "hold"} {
+				if deco == 0 && cfg.Buf == 0 && cons == "ack" {
+					// the backlog is replayed to a subscription whose context is already cancelled
+					add(reg.Quick, 1, spec{Cfg: cfg, Deco: deco, Consumer: cons, Backlog: 1, Actors: "deadctx", C: -1}, -1)
+					add(reg.Quick, 1, spec{Cfg: cfg, Deco: deco, Consumer: cons, Backlog: 1, Actors: "deadctx+close", C: -1}, -1)
+				}
 				for _, a := range []string{"close", "cancel", "close+subscribe"} {
 					tier := reg.Quick
 					if deco == 1 || cfg.Buf > 0 || a == "cancel" {
@@ -292,6 +318,13 @@ func init() {
 					}
 					add(tier, 1, spec{Cfg: cfg, Deco: deco, Consumer: cons, Actors: a.actors, C: cq}, a.ct)
 				}
+			}
+			// a Subscribe whose context is already cancelled, alongside a Publish or a Close
+			if deco < 2 {
+				for _, cons := range []string{"ack", "nack1"} {
+					add(reg.Quick, 1, spec{Cfg: cfg, Deco: deco, Consumer: cons, Actors: "deadctx+pub", C: -1}, -1)
+				}
+				add(reg.Quick, 1, spec{Cfg: cfg, Deco: deco, Consumer: "hold", Actors: "deadctx+pub+close", C: 0}, 1)
 			}
 			for _, a := range noPub {
 				tier := a.tier
